@@ -51,13 +51,14 @@ type FuncContract struct {
 	CallPre        map[string][]*Clause // obligations on the arguments of calls made by this function, keyed by callee
 	DynMod         []*Clause            // assumed frame of dynamic calls in this function
 	HasDynMod      bool
-	UnknownLikeDyn bool      // calls without a contract are assumed to respect the dyncall frame
-	SendPre        []*Clause // obligations on every channel send of the function (`ch` = the channel)
-	LitPred        string    // spec predicate assumed of every string literal of the function body (e.g. safe)
-	NoMonitor      bool      // exempt from re-establishing monitor invariants (configuration-time function)
-	AssertAt       []*Clause // ghost assertions placed before the statement on a named source line (Loc, Nth)
-	AtUnlock       []*Clause // assertions checked at every Unlock of the function (may mention locals and atlock())
-	Checks         []*Clause // internal postconditions (may mention locals; not exported to callers)
+	UnknownLikeDyn bool           // calls without a contract are assumed to respect the dyncall frame
+	SendPre        []*Clause      // obligations on every channel send of the function (`ch` = the channel)
+	LitPred        string         // spec predicate assumed of every string literal of the function body (e.g. safe)
+	NoMonitor      bool           // exempt from re-establishing monitor invariants (configuration-time function)
+	GhostAt        []*GhostUpdate // ghost assignments placed before the statement on a named source line
+	AssertAt       []*Clause      // ghost assertions placed before the statement on a named source line (Loc, Nth)
+	AtUnlock       []*Clause      // assertions checked at every Unlock of the function (may mention locals and atlock())
+	Checks         []*Clause      // internal postconditions (may mention locals; not exported to callers)
 	Functional     bool
 	Modifies       []*Clause
 	HasMod         bool
@@ -77,6 +78,17 @@ type FuncContract struct {
 	File           string
 	Line           int
 	Used           bool
+}
+
+// GhostUpdate: ghostat "text"#k g(args) := e; h(args) := e2 - simultaneous assignments to ghost heaps
+// (all right-hand sides and indices are evaluated in the state before the update).
+type GhostUpdate struct {
+	Loc   string
+	Nth   int
+	Text  string
+	LHS   []ast.Expr
+	RHS   []ast.Expr
+	sites int
 }
 
 type SpecFunc struct {
@@ -128,7 +140,7 @@ func newContracts() *Contracts {
 	return &Contracts{Funcs: map[string]*FuncContract{}, Specs: map[string]*SpecFunc{}, Decls: map[string][]string{}}
 }
 
-var keywordRe = regexp.MustCompile(`^(func|requires|ensures_on_panic|ensures|summary|assertat|checkif|check|functional|closeonce|callpreif|callpremust|callpre|dyncall|ghost|atunlock|sendpre|nomonitor|unknowncalls|literals|modifies|pure|trusted|strict|mathint|maypanic|nobody|loop|param|spec|axiom|lemma|monitor|allocbound|recdecreases|holdslock|decl)\b`)
+var keywordRe = regexp.MustCompile(`^(func|requires|ensures_on_panic|ensures|summary|assertat|checkif|check|functional|closeonce|callpreif|callpremust|callpre|dyncall|ghost|atunlock|sendpre|nomonitor|unknowncalls|literals|modifies|pure|trusted|strict|mathint|maypanic|nobody|loop|param|spec|axiom|lemma|monitor|allocbound|recdecreases|holdslock|ghostat|decl)\b`)
 
 // preprocess rewrites `A ==> B` into implies(A, B) (lowest precedence within its paren group)
 // and `A <==> B` into iff(A, B).
@@ -410,6 +422,53 @@ func (cs *Contracts) parseContractFile(path string, content []byte, pkgName stri
 				c.Loc, c.Nth = loc, nth
 				cur.AssertAt = append(cur.AssertAt, c)
 			}
+		case "ghostat":
+			if cur == nil {
+				fail(it.line, "ghostat outside func")
+				continue
+			}
+			r := strings.TrimSpace(rest)
+			if !strings.HasPrefix(r, "\"") {
+				fail(it.line, "ghostat: expected quoted source text")
+				continue
+			}
+			end := strings.Index(r[1:], "\"")
+			if end < 0 {
+				fail(it.line, "ghostat: unterminated text")
+				continue
+			}
+			gu := &GhostUpdate{Loc: r[1 : 1+end]}
+			r = r[2+end:]
+			if strings.HasPrefix(r, "#") {
+				j := 1
+				for j < len(r) && r[j] >= '0' && r[j] <= '9' {
+					gu.Nth = gu.Nth*10 + int(r[j]-'0')
+					j++
+				}
+				r = r[j:]
+			}
+			gu.Text = strings.TrimSpace(r)
+			okAll := true
+			for _, asg := range strings.Split(gu.Text, ";") {
+				lr := strings.SplitN(asg, ":=", 2)
+				if len(lr) != 2 {
+					okAll = false
+					break
+				}
+				l, err1 := parser.ParseExpr(strings.TrimSpace(lr[0]))
+				rr, err2 := parser.ParseExpr(strings.TrimSpace(lr[1]))
+				if err1 != nil || err2 != nil {
+					okAll = false
+					break
+				}
+				gu.LHS = append(gu.LHS, l)
+				gu.RHS = append(gu.RHS, rr)
+			}
+			if !okAll || len(gu.LHS) == 0 {
+				fail(it.line, "ghostat: expected g(args) := expr [; ...]")
+				continue
+			}
+			cur.GhostAt = append(cur.GhostAt, gu)
 		case "atunlock":
 			if cur == nil {
 				fail(it.line, "atunlock outside func")
